@@ -72,6 +72,15 @@ func cmdVerify(args []string) {
 		e.VerifyFn(fc)
 		fmt.Printf("  %-40s %4d obligations  %d paths  (%.2fs)\n", fc.Key, len(e.Obligs)-n0, e.Stats["paths:"+fc.Key], time.Since(t1).Seconds())
 	}
+	e.RunCovers(*jobs)
+	if *verbose {
+		for _, cv := range e.Covers {
+			fmt.Printf("  cover %s: %s\n", cv.Name, cv.Status)
+		}
+	}
+	for _, s := range e.InfeasibleSites {
+		fmt.Println("INFEASIBLE-RETURN-SITE:", s)
+	}
 	for _, er := range e.Errors {
 		fmt.Println("TOOL-ERROR:", er)
 	}
